@@ -94,7 +94,7 @@ def opaque_leaf_streams(ctx):
         mod = importlib.import_module("props.opaque_" + fam)
         ok, failing, cs = True, [], []
         try:
-            if not built:
+            if not built and not ctx.make(["run/RunOpaque%s.vo" % Fam]):     # attribute a build failure to its family
                 raise RuntimeError("run/RunOpaque%s.vo does not build" % Fam)
             with warnings.catch_warnings():
                 warnings.simplefilter("ignore")
@@ -110,7 +110,8 @@ def opaque_leaf_streams(ctx):
         ctx.obligation("corr:%s leaf classes == function model (%d cases)" % (fam, len(cs)), ok and not failing)
         if failing or not ok:
             i = failing[0] if failing else None
-            ctx.violation("C01: leaf class and function model disagree (%s family)%s" % (fam, "" if i is None else ", e.g. %s" % str(cs[i].get("info"))[:600]),
+            ctx.violation(("C01: leaf class and function model disagree (%s family), e.g. %s" % (fam, str(cs[i].get("info"))[:600])) if i is not None
+                          else "C01: the %s leaf correspondence could not run (its model no longer builds / the generator raised): %s" % (fam, ctx.notes[-1][:300]),
                           {"kind": "correspondence", "broken": "corr:%s leaf classes == function model" % fam,
                            "case": None if i is None else cs[i].get("info"), "coq_expr": None if i is None else cs[i]["expr"][:4000],
                            "n_disagreements": len(failing)},
